@@ -52,6 +52,19 @@ def run_endpoint(spec):
 
   CategoricalDomain.map_one_hot_points_to_categorical = w_map
   CategoricalDomain.replace_duplicate_points = w_rep
+  # the a-priori task draw of the model-based endpoints (probability proportional to exp(-cost)): recorded so that the
+  # reported task costs can be compared with the tasks the points were optimised for
+  import libsigopt.views.rest.gp_next_points_categorical as _gpc
+  orig_softmax = getattr(_gpc, "select_random_task_by_softmax", None)
+  rec["task_draws"] = []
+
+  def w_softmax(task_options, size=None):
+    out = orig_softmax(task_options, size=size)
+    rec["task_draws"] += numpy.atleast_1d(numpy.array(out, dtype=float)).tolist()
+    return out
+
+  if orig_softmax is not None:
+    _gpc.select_random_task_by_softmax = w_softmax
   res = {"spec_id": spec.get("id"), "error": None}
   try:
     params = G.build_params(spec)
@@ -68,6 +81,8 @@ def run_endpoint(spec):
   finally:
     CategoricalDomain.map_one_hot_points_to_categorical = orig_map
     CategoricalDomain.replace_duplicate_points = orig_rep
+    if orig_softmax is not None:
+      _gpc.select_random_task_by_softmax = orig_softmax
   res["rec"] = rec
   return res
 
@@ -166,6 +181,16 @@ def check_result(ctx, spec, res):
       ctx.violation(f"C01 {ep}: task costs missing, of wrong length, or not drawn from the task options", {"case": case, "task_costs": tc})
       return
     ctx.count("multitask")
+    # every reported cost is the cost of a task the endpoint drew a priori for this call (the point was optimised for that
+    # task); only when de-duplication replaced no row (a refill row carries a task of its own)
+    draws = (res.get("rec") or {}).get("task_draws") or []
+    untouched = all(r["in"] == r["out"] for r in (res.get("rec") or {}).get("replace", []))
+    if draws and untouched:
+      ctx.count("multitask_draw_checked")
+      if any(float(t) not in [float(d) for d in draws] for t in tc):
+        ctx.violation(f"C01 {ep}: a reported task cost is not the task drawn (with probability proportional to exp(-cost)) for that point",
+                      {"case": case, "task_costs": [float(t) for t in tc], "drawn": draws, "task_options": opts})
+        return
   elif tc is not None:
     ctx.violation(f"C01 {ep}: task costs returned for a request without task options", {"case": case})
     return
@@ -289,6 +314,22 @@ def run(ctx, scale):
   for ep, n in plan.items():
     for _ in range(n):
       specs.append(gen_spec(rng, ep, ctx.tier))
+  if scale == 1:
+    # multitask requests whose options are listed most-expensive-first / in no order (shape of a round-4 seeded change)
+    for k in range(2):
+      specs.append(G.gen_request(rng, "gp_next", flavour="mixed", layout="single", n=10, tasks=2 + k, pending=0, num_to_sample=2))
+  # the order in which task options are listed is an input dimension: half of the multitask requests get theirs re-ordered
+  # (own generator, so the request stream itself is unchanged)
+  import random as _random
+  for sp in specs:
+    if sp.get("task_options") and len(sp["task_options"]) >= 2:
+      r2 = _random.Random(int(round(sum(sp["task_options"]) * 1e6)) + len(sp["points"]))
+      if r2.random() < 0.6:
+        opts2 = list(sp["task_options"])
+        opts2.reverse() if r2.random() < 0.5 else r2.shuffle(opts2)
+        if opts2 == sorted(opts2):
+          opts2.reverse()
+        sp["task_options"] = opts2
   # slowest first for better packing
   order = sorted(range(len(specs)), key=lambda i: {"gp_next": 0, "search_next": 1}.get(specs[i]["endpoint"], 2))
   nproc = min(12, max(2, (os.cpu_count() or 4) - 2))
